@@ -399,7 +399,11 @@ def run_unit(unit, acc):
         return
     if unit[0] == "faults":
         base = unit[1]
-        log, top = trace_dump(base)
+        try:
+            log, top = trace_dump(base)
+        except (ValueError, TypeError):
+            acc.outcome("base:not-writable-without-any-fault")        # (a valid object that is refused is C06's business, not C18's)
+            return
         if not log:
             raise RuntimeError("no validator invocation observed while dumping %s" % base)
         if base.startswith("["):
